@@ -70,14 +70,14 @@ def loop (o : Oracles K E σ) : Nat → σ → E → Option K → List E → Opt
       -- energy = new_energy; status = self._controller.check(energy)
       let c := o.check st2 newEnergy
       -- if status != controller.CONTINUE: return energy, status
-      if c.2 ≠ .continue_ then some ⟨newEnergy, c.2, acc ++ [newEnergy], c.1⟩
-      else loop o fuel c.1 newEnergy fprev' (acc ++ [newEnergy])
+      if c.2 = .continue_ then loop o fuel c.1 newEnergy fprev' (acc ++ [newEnergy])
+      else some ⟨newEnergy, c.2, acc ++ [newEnergy], c.1⟩
 
 /-- `DescentMinimizer.__call__` -/
 def minimize (o : Oracles K E σ) (fuel : Nat) (st : σ) (energy : E) : Option (Result E σ) :=
   -- status = controller.start(energy); if status != controller.CONTINUE: return energy, status
   let s := o.start st energy
-  if s.2 ≠ .continue_ then some ⟨energy, s.2, [], s.1⟩
-  else loop o fuel s.1 energy none []
+  if s.2 = .continue_ then loop o fuel s.1 energy none []
+  else some ⟨energy, s.2, [], s.1⟩
 
 end NiftyVerif.Descent
